@@ -161,6 +161,9 @@ type scenCfg struct {
 	remErrs  int  // how many may report a remote (application) error
 	cancels  int  // how many requesters may cancel instead of waiting
 	stop     bool // one machine may be stopped at a requester step
+	// holds: number of 1-proc requests granted (and kept) in the prelude; they are
+	// returned by the main thread once releaseAfter explored grants have happened.
+	holds, releaseAfter int
 }
 
 var outcomeStr string
@@ -186,10 +189,10 @@ func body(cfg scenCfg) func() {
 		}
 		// Prelude (not explored): start the manager and bring all machines up by
 		// requesting every machine whole, then return them.
+		var held []*exec.VerifC14sMachine
 		vsched.Prelude(func() {
 			mgr.WatchQueue(l.onOffer, l.onCancel)
 			vsched.Go("manager", func() { vsched.Daemon(); mgr.Do(ctx) })
-			var held []*exec.VerifC14sMachine
 			for i := 0; i < cfg.machines; i++ {
 				c, _ := request(0, whole)
 				held = append(held, vsched.Recv("prelude-grant", c))
@@ -197,7 +200,14 @@ func body(cfg scenCfg) func() {
 			for _, m := range held {
 				m.Done(whole, nil)
 			}
+			held = held[:0]
+			for i := 0; i < cfg.holds; i++ {
+				c, _ := request(0, 1)
+				held = append(held, vsched.Recv("prelude-hold", c))
+			}
 		})
+		baseGrants := 0
+		vsched.Monitor(monKey, func() { baseGrants = l.grants })
 		vsched.Monitor(monKey, func() { l.events = append(l.events, "--explore--") })
 		netLeft, remLeft, cancelLeft, stopLeft := cfg.netErrs, cfg.remErrs, cfg.cancels, 0
 		if cfg.stop {
@@ -257,6 +267,13 @@ func body(cfg scenCfg) func() {
 				m.Done(procs, err)
 			})
 		}
+		if cfg.holds > 0 {
+			// return the held procs once the expected number of explored grants has happened
+			vsched.Await("release-holds", func() bool { return l.grants >= baseGrants+cfg.releaseAfter })
+			for _, m := range held {
+				m.Done(1, nil)
+			}
+		}
 		wg.Wait()
 		vsched.Quiesce() // let the manager digest the last messages
 		// quiescence: every proc returned exactly once, in the ledger and in the manager's own books
@@ -306,6 +323,10 @@ var cfgs = []scenCfg{
 	{name: "2x2/three-1proc/neterr", procsPer: 2, machines: 2, reqs: []int{1, 1, 1}, prios: []int{0, 0, 0}, netErrs: 1, remErrs: 1},
 	{name: "2x2/two-1proc/stop", procsPer: 2, machines: 2, reqs: []int{1, 1}, prios: []int{0, 0}, stop: true},
 	{name: "1x3/2+2+1-reservation", procsPer: 3, machines: 1, reqs: []int{2, 2, 1}, prios: []int{0, 0, 0}},
+	// both machines half loaded; a whole-machine request (higher priority) cannot be placed and is
+	// shelved with a reserved machine while a smaller, lower-priority one is granted on the other
+	{name: "2x2/held+whole+1proc-shelved", procsPer: 2, machines: 2, reqs: []int{0, 1}, prios: []int{0, 1}, holds: 2, releaseAfter: 1},
+	{name: "2x2/held+whole+two-1proc-shelved", procsPer: 2, machines: 2, reqs: []int{0, 1, 1}, prios: []int{0, 1, 1}, holds: 2, releaseAfter: 1},
 }
 
 var flagLayer = flag.String("layer", "C14", "property that owns this layer")
